@@ -207,14 +207,15 @@ def answer (k : Consts) (t : DevTree) (now : Int) (r : Req) (sel : Option Nat) :
 
 /-! ### the announcer -/
 
-/-- the `n`-th `ssdp:alive` (`next(cycle(advertisements))`), sent at `start + n * interval` -/
-def aliveAt (t : DevTree) (n : Nat) : Option Msg :=
+/-- the `n`-th `ssdp:alive` (`next(cycle(advertisements))`); the list is never empty -/
+def aliveAt (t : DevTree) (n : Nat) : Msg :=
   let ads := advertisements t
-  ads[n % ads.length]?
+  (ads[n % ads.length]?).getD ⟨[], []⟩
 
-/-- the first `n` announcements with their send times relative to the start (ms) -/
+/-- the first `n` announcements with their send times relative to the start (ms):
+    `_announce_next` sends one and re-arms itself with `call_later(ANNOUNCE_INTERVAL)` -/
 def alives (k : Consts) (t : DevTree) (n : Nat) : List Sent :=
-  (List.range n).filterMap fun i => (aliveAt t i).map fun m => ⟨Int.ofNat (i * k.announceMs), m⟩
+  (List.range n).map fun i => ⟨Int.ofNat (i * k.announceMs), aliveAt t i⟩
 
 /-- `_send_byebyes` -/
 def byebyes (t : DevTree) : List Msg := advertisements t
